@@ -83,13 +83,15 @@ pub fn run_cli(dir: &Path, args: &[&str]) -> CliRun {
     run_cli_styled(dir, args, 0)
 }
 
-pub const CLI_STYLES: usize = 5;
+pub const CLI_STYLES: usize = 6;
 
 /// The same command started in another way: the project is the one whose `graphql.config.yaml` lies in `dir`.
 /// 0: from `dir`, configuration file discovered; 1: from `dir` with `--config-file ./graphql.config.yaml`;
 /// 2: from the parent directory with `--config-file <dir>/graphql.config.yaml`; 3: from `dir` with a path that
 /// leaves and re-enters it (`../<dir>/graphql.config.yaml`); 4: from the parent directory with a detour
-/// (`./<dir>/../<dir>/graphql.config.yaml`). Nothing is created or changed on disk.
+/// (`./<dir>/../<dir>/graphql.config.yaml`); 5: from `dir`, repeating the configuration's `schema` and `documents`
+/// values as `--schema` / `--operation` arguments (they override the configuration with the same values).
+/// Nothing is created or changed on disk.
 pub fn run_cli_styled(dir: &Path, args: &[&str], style: usize) -> CliRun {
     let name = dir.file_name().map(|n| n.to_string_lossy().into_owned()).unwrap_or_default();
     let parent = dir.parent().unwrap_or(dir).to_path_buf();
@@ -101,6 +103,17 @@ pub fn run_cli_styled(dir: &Path, args: &[&str], style: usize) -> CliRun {
         _ => (dir.to_path_buf(), None),
     };
     let mut all: Vec<String> = vec![];
+    if style % CLI_STYLES == 5 {
+        // only the plain one-line forms the generated configurations use
+        if let Ok(text) = std::fs::read_to_string(dir.join("graphql.config.yaml")) {
+            let value_of = |key: &str| -> Option<String> {
+                text.lines().find_map(|l| l.strip_prefix(key)).map(|v| v.trim().trim_matches('"').to_string()).filter(|v| !v.is_empty() && !v.starts_with('[') && !v.contains('\\'))
+            };
+            if let (Some(sc), Some(d)) = (value_of("schema:"), value_of("documents:")) {
+                all.extend(["--schema".to_string(), sc, "--operation".to_string(), d]);
+            }
+        }
+    }
     if let Some(c) = cfg {
         all.push("--config-file".into());
         all.push(c);
